@@ -47,7 +47,7 @@ manifest = {
     "setup_cmd": "./check build",
     "hooks": {
         "guard": "cargo feature verif-hooks",
-        "enable": "the harness crate /verif/harness path-depends on /repo with features = [\"verif-hooks\"]; ./check rebuilds it (and therefore /repo's working tree) before every run",
+        "enable": "the harness crate /verif/harness path-depends on /repo with features = [\"verif-hooks\"]; ./check rebuilds it (and therefore /repo's working tree) before every run; the probe crate /verif/nohooks is built against /repo WITHOUT the feature and C12 compares the sketches of the two builds",
         "baseline_off_cmd": "/verif/tools/baseline_off.sh",
         "source_commits": hook_commits(),
         "add_only": True,
@@ -57,7 +57,7 @@ manifest = {
          "kind_free_text": "Rust binary: proptest 1.11 TestRunner (fixed ChaCha seed from VERIF_SEED, no persistence, sharded over 16 threads) for generation and shrinking; explicit oracles (reference models, metamorphic and differential relations, exact closed forms with non-asymptotic concentration bounds); replay files bypass proptest"},
     ],
     "checks": checks,
-    "notes": "All checks rebuild /repo's working tree through the harness path dependency. exit 0 = held, 1 = VIOLATION line printed, 2 = infrastructure/inconclusive. Known findings: /verif/known_findings.json.",
+    "notes": "All checks rebuild /repo's working tree through the harness path dependency. exit 0 = held, 1 = VIOLATION line printed, 2 = infrastructure/inconclusive. Known findings: /verif/known_findings.json (2 open: C02 pmh-winv-overflow, C01 pmh3-mse-tiny-m; each prints one KNOWN-FINDING line and the check exits 0).",
     "not_applicable": na,
 }
 FUZZ_SERVES = ["C02", "C04", "C05", "C09", "C11", "C12", "C13", "C14", "C15", "C17", "C18", "C19", "C20"]
